@@ -57,7 +57,7 @@ CLAIMS = {
         text="Theorems (props/C04.v): in every reachable world the per-user and per-channel membership tables are the same relation, the five rank lists of every channel are exactly the members "
              "whose rank flag is set, and every member is a registered user owned by a live connection; the 353 lines of NAMES carry exactly the members the viewer may see, each once, with its rank "
              "prefix (sound and complete: chunking loses and duplicates nothing), and nothing for a secret channel the viewer is not on; the 319 lines of WHOIS carry exactly the non-secret channels of "
-             "the user's own membership set with the rank prefix; the 352 lines of WHO #channel carry one entry per member with the rank prefix (C04_who_text); the views read one relation (C04_views_agree); PART is announced, one copy each, to every member of the channel as it was before the departure, the leaver included (C04_part_announced). The effects of JOIN/PART/KICK/NICK/teardown on that relation are the theorems "
+             "the user's own membership set with the rank prefix; the 352 lines of WHO #channel carry one entry per member with the rank prefix (C04_who_text); the views read one relation (C04_views_agree); PART is announced, one copy each, to every member of the channel as it was before the departure, the leaver included (C04_part_announced); an accepted KICK gives one copy of the KICK line to every member that is left and one to the victim (C04_kick_announced); the output of JOIN is the planning refusals followed by the announcements of the accepted entries in order, each telling the joiner first (JOIN line, topic, NAMES) and then every other member once, refused entries announcing nothing (C04_join_output, C04_join_announced, C04_join_refused_silent). The effects of JOIN/PART/KICK/NICK/teardown on that relation are the theorems "
              "of C07, C09, C15, C16 and C06. That the JOIN/KICK/NICK announcements together with the NAMES reply reconstruct the roster is decided per run by the oracles on real traces (L2).",
         design_ref="5 (C04)",
         note="Partial at proof level: the announcement-derived rosters are checked by differential execution, not proved."),
@@ -149,7 +149,7 @@ CLAIMS = {
         text="Theorems (props/C01.v) about the Gallina model of process_privmsg_notice, for ALL shared states, connections, target lists and texts: an accepted channel target queues "
              "exactly one copy for each member of the audience other than the sender - the queued lines are in one-to-one correspondence (Forall2) with a duplicate-free list whose "
              "elements are exactly audience minus sender - each to the connection owning that nick; a nick target goes to exactly the owner; the audience of a status-prefixed target is the "
-             "union of the named rank lists; duplicate targets are handled once; the line is :source VERB target :text verbatim; state and connection are unchanged. Statements are "
+             "union of the named rank lists; duplicate targets are handled once; the line is :source VERB target :text verbatim; state and connection are unchanged; and in every reachable world that source is nick!~user@host of the nick the user is registered under now, its user name and host - whatever the order of NICK and USER at registration and however many nick changes followed (C01_true_attribution, by a world invariant proved through all 41 commands, registration, teardown and KILL delivery: IRCP.IdentP). Statements are "
              "conditional on the handler returning Ok (absence of Panic is C05's theorem). Tie: 32 prefix subsets x rank combinations x flags sweep and seeded random histories, impl vs "
              "model per step, plus the audience rule recomputed from the implementation's own state dump.",
         design_ref="5 (C01)",
